@@ -257,11 +257,13 @@ open MsPack MsPack.Generated
 variable {σ : Type} (S : Src σ)
 
 /-- `mszipd_init` (allocation succeeds): the input buffer size is rounded up to even; the window
-    is whatever the allocator handed out (`fill`), nothing clears it -/
+    is zeroed (`memset`, since f814fba) -/
 def init (src : σ) (inputBufferSize : Nat) (repair : Bool) (fill : UInt8) : Option (St σ) :=
   let sz := (inputBufferSize + 1) / 2 * 2
   if sz < 2 then none
-  else some { src := src, inbufSize := sz, window := Array.replicate zipFRAME_SIZE fill, repair := repair }
+  else
+    let _ := fill     -- the window is cleared since f814fba; nothing else of the state is read before written
+    some { src := src, inbufSize := sz, window := Array.replicate zipFRAME_SIZE 0, repair := repair }
 
 /-- the `CK` scan: `state` as in the C (0, 1 = seen C, 2 = seen CK) -/
 def scanCK : Nat → Nat → ZM σ Unit
